@@ -113,6 +113,15 @@ func (c *Ctx) execCall(st *State, fr *Frame, instr ssa.Instruction, call *ssa.Ca
 			if len(results) > 0 {
 				envA["result"] = results[0]
 			}
+			// the call's arguments are visible as cargN (as in before-clauses)
+			ai := 0
+			if call.IsInvoke() {
+				envA["carg0"] = c.valueOf(st, fr, call.Value)
+				ai = 1
+			}
+			for i, a := range call.Args {
+				envA[fmt.Sprintf("carg%d", i+ai)] = c.valueOf(st, fr, a)
+			}
 			se := &SpecEnv{c: c, st: st2, vars: envA, pkg: c.pkgOfFrame(fr), old: pre, fr: fr, internal: true}
 			for _, cl := range lets {
 				v := se.eval(cl.E)
@@ -310,7 +319,30 @@ func (c *Ctx) inline(st *State, fr *Frame, instr ssa.Instruction, callee *ssa.Fu
 	}
 	c.stack = append(c.stack, callee)
 	depth := len(c.stack)
+	entrySnap := st.snap()
 	nf.onReturn = func(st2 *State, results []T) {
+		// an inlined function with its own (inline-flagged) contract: its postconditions are proved at
+		// its return points (they may mention the closure's locals, free variables and ghost lets)
+		if ict := c.contractFor(callee); ict != nil && ict.Flags["inline"] && c.rejectClause == nil {
+			env := map[string]T{}
+			bindResults(env, resultNames(ict, callee.Signature), results)
+			se := &SpecEnv{c: c, st: st2, vars: env, pkg: ict.Pkg, old: entrySnap, fr: nf, internal: true}
+			for _, cl := range ict.Clauses {
+				if cl.Kind != "ensures" {
+					continue
+				}
+				for _, cj := range se.splitConjuncts(cl.E, 0) {
+					g, unresolved := c.proveAtReturn(se, cj)
+					if unresolved != "" {
+						panic(specErr{"postcondition of inlined " + relFuncName(callee) + " mentions unknown name " + unresolved + ": " + cj.String()})
+					}
+					if g == "true" || !c.tagSelected(cl.Tags) {
+						continue
+					}
+					c.obls = append(c.obls, &Obligation{Func: c.fnKey(), Kind: "ensures@" + relFuncName(callee), Name: c.fnKey() + "#ensures@" + relFuncName(callee) + "#" + cl.Hash(), Desc: "postcondition of inlined " + relFuncName(callee) + ": " + cj.String(), Goal: g, Lines: st2.lines.collect(), Clause: cl, Tags: cl.Tags, Path: strings.Join(st2.pathDesc, ",")})
+				}
+			}
+		}
 		saved := c.stack
 		c.stack = c.stack[:depth-1]
 		k(st2, results)
